@@ -8,9 +8,9 @@ CONSTANTS
   Factors <- MC_Factors
   DataLo = 0
   DataHi = 96
-  PkParams <- MC_PkParams3
+  PkParams <- MC_PkParams
   BkParams <- MC_BkParams
-  NptsVals = {0, 1, 2, 3, 4, 5, 6, 7, 9}
+  NptsVals = {0, 2, 4, 5, 6, 7}
   MaxPeaks = 3
   GuessMin = 4
   RN = 4
